@@ -534,6 +534,10 @@ func init() {
 		if err != nil {
 			evid.Inconclusive("trace validation: %v", err)
 		}
+		// the peer falls silent inside a chunk for longer than ReadTimeout (MC_Idle)
+		imc := modelCheck("MC_Idle", "MC_Idle.cfg", 8)
+		ist := tourSome(run, dumpEdges("MC_Idle", "Dump_Idle.cfg"), func(e *sessrep.Edge) bool { return e.Lbl.Cmd.C == "BDATSTALL" })
+		fmt.Printf("C05: MC_Idle %d states; %d/%d stalled-chunk transitions replayed (a real ReadTimeout each)\n", imc.Distinct, ist.Covered, ist.Edges)
 		fmt.Printf("C05: TLC %d states; %d+%d BDAT edges replayed; %d chunked conversations recorded and validated by TLC (%d accepted), each re-run under 3 more disciplines (%d runs)\n",
 			mc.Distinct+zmc.Distinct, st.Covered, zs.Covered, vs.Walks, vs.Accepted, ndisc)
 		samples := []interface{}{}
